@@ -32,6 +32,7 @@ use std::sync::{Arc, Mutex};
 use std::thread;
 use std::time::{Duration, Instant};
 
+static HANGS: AtomicUsize = AtomicUsize::new(0); // connections that did not end (fail fast after a few)
 const GUID: &str = "258EAFA5-E914-47DA-95CA-C5AB0DC85B11";
 
 // ------------------------------------------------------------------------------------------------
@@ -157,6 +158,9 @@ struct Case {
     exp: Option<Value>,
     gap_us: u64,
     full: bool, // print the event log, the observation and the script
+    hsv: String,  // spelling of the upgrade request ("canon" or a letter-case variant)
+    late_ms: u64, // the reference client starts reading the server's frames this late (a slow reader)
+    exp_alt: Vec<Value>, // further outcomes the spec allows for this script (letter-case variants of the request)
     pre: String, // handler preamble: "none" | "poll" (one recv_nonblocking while nothing is pending) | "pollpush" (then a push)
     push: Rle,   // payload of the binary message pushed by the preamble
 }
@@ -201,6 +205,15 @@ fn key_of_name(name: &str) -> Option<String> {
         "kEq" => "====".to_string(),
         "kUtf8" => "ключ-é-😀".to_string(),
         "k1000" => "0123456789abcdefghij".repeat(50),
+        // one representative per Unicode class inside the key, and non-ASCII white space at both ends (not OWS: kept)
+        "kUni" => "a\u{0663}\u{FF11}\u{1D7D9}\u{00B2}\u{00BD}\u{2167}\u{00A0}\u{1680}\u{3000}\u{00DF}\u{0130}\u{FB01}e\u{0301}\u{E000}z".to_string(),
+        "kUniEdge" => "\u{00A0}\u{3000}key\u{2028}\u{1680}".to_string(),
+        n if n.starts_with("kLen") && n[4..].parse::<usize>().is_ok() => {
+            // a key of exactly that many bytes
+            const A: &[u8] = b"ABCDEFGHIJKLMNOPQRSTUVWXYZabcdefghijklmnopqrstuvwxyz0123456789+/=";
+            let len: usize = n[4..].parse().unwrap();
+            (0..len).map(|i| A[(i * 7 + len) % A.len()] as char).collect()
+        }
         other => other.to_string(),
     })
 }
@@ -624,9 +637,19 @@ fn run_case(case: &Case, srv: &Server, rng: &mut Rng) -> Value {
     srv.shared.map.lock().unwrap().insert(local, ctx.clone());
 
     // opening handshake
-    let mut req = String::from("GET /ws HTTP/1.1\r\nHost: localhost\r\nUpgrade: websocket\r\nConnection: Upgrade\r\n");
+    // (name of Upgrade, its token, name of Connection, its token, name of the key header) per spelling
+    let (un, ut, cn, ct, kn) = match case.hsv.as_str() {
+        "lower" => ("upgrade", "websocket", "connection", "Upgrade", "sec-websocket-key"),
+        "upper" => ("UPGRADE", "websocket", "CONNECTION", "Upgrade", "SEC-WEBSOCKET-KEY"),
+        "mixed" => ("uPgRaDe", "websocket", "cOnNeCtIoN", "Upgrade", "sEc-wEbSoCkEt-kEy"),
+        "tokenUpper" => ("Upgrade", "WEBSOCKET", "Connection", "Upgrade", "Sec-WebSocket-Key"),
+        "tokenMixed" => ("Upgrade", "WebSocket", "Connection", "Upgrade", "Sec-WebSocket-Key"),
+        "connLower" => ("Upgrade", "websocket", "Connection", "upgrade", "Sec-WebSocket-Key"),
+        _ => ("Upgrade", "websocket", "Connection", "Upgrade", "Sec-WebSocket-Key"),
+    };
+    let mut req = format!("GET /ws HTTP/1.1\r\nHost: localhost\r\n{}: {}\r\n{}: {}\r\n", un, ut, cn, ct);
     if let Some(k) = &case.key {
-        req.push_str(&format!("Sec-WebSocket-Key: {}\r\n", k));
+        req.push_str(&format!("{}: {}\r\n", kn, k));
     }
     req.push_str("Sec-WebSocket-Version: 13\r\n\r\n");
     let mut w = sock.try_clone().unwrap();
@@ -653,7 +676,7 @@ fn run_case(case: &Case, srv: &Server, rng: &mut Rng) -> Value {
     // the handshake is complete on the server before the handler runs: its record goes first even if the
     // handler was quicker to log than this thread
     ctx.log.lock().unwrap().insert(0, json!({"e": "hs", "haskey": case.key.is_some(), "key": case.key.clone().unwrap_or_default(),
-                   "status": status, "accept": accept, "want": want}));
+                   "hsv": case.hsv, "status": status, "accept": accept, "want": want}));
 
     let mut frames_out: Vec<Value> = vec![];
     let end;
@@ -661,7 +684,11 @@ fn run_case(case: &Case, srv: &Server, rng: &mut Rng) -> Value {
         // reading side: parse the server's stream until it ends
         let c2 = ctx.clone();
         let big_push = case.pre == "pollpush" && case.push.iter().map(|x| x.1).sum::<u64>() >= (1 << 20);
+        let late_ms = case.late_ms;
         let reader = thread::spawn(move || {
+            if late_ms > 0 {
+                thread::sleep(Duration::from_millis(late_ms));
+            }
             if big_push {
                 // a client that is slow to read: start reading 150 ms after the handler began to write its large
                 // message, so that the message cannot fit into the socket buffers
@@ -744,10 +771,9 @@ fn run_case(case: &Case, srv: &Server, rng: &mut Rng) -> Value {
             mismatch.push("client write failed".into());
         }
     } else {
-        // not upgraded: whatever else the server wrote, and the end of the stream
-        let rest = read_frames(&mut rd);
-        frames_out = rest;
-        end = rd.end.unwrap_or("eof");
+        // not upgraded: what follows is HTTP (or nothing), not a frame stream; the client closes
+        let _ = sock.shutdown(Shutdown::Both);
+        end = "eof";
     }
     srv.shared.map.lock().unwrap().remove(&local);
     ctx.log(json!({"e": "out", "frames": frames_out.clone(), "end": end}));
@@ -768,34 +794,22 @@ fn run_case(case: &Case, srv: &Server, rng: &mut Rng) -> Value {
     obs["failed"] = json!(failed);
     obs["end"] = json!(end);
 
-    if let Some(exp) = &case.exp {
-        let exp_up = exp["status"].as_u64() == Some(101);
-        if exp_up != (status == 101) {
-            mismatch.push(format!("handshake status {} but the spec says {}", status, if exp_up { "101" } else { "not upgraded" }));
+    let hung = mismatch.iter().any(|m| m.contains("did not end within"));
+    if let Some(exp0) = &case.exp {
+        // the script's outcome must be (exactly) one of the outcomes the spec allows: one, except for letter-case
+        // variants of the upgrade request, where `upgraded' and `not upgraded' are both allowed
+        let mut best: Option<Vec<String>> = None;
+        for exp in std::iter::once(exp0).chain(case.exp_alt.iter()) {
+            let mut mm: Vec<String> = vec![];
+            compare(exp, status, &accept, &want, &delivered, &frames_out, closed, failed, panicked, end, &mut mm);
+            if best.as_ref().map(|b| mm.len() < b.len()).unwrap_or(true) {
+                best = Some(mm);
+            }
         }
-        if exp_up && accept != want {
-            mismatch.push(format!("Sec-WebSocket-Accept {:?}, wanted {:?}", accept, want));
-        }
-        if json!(delivered) != exp["delivered"] {
-            mismatch.push(format!("delivered {} but the spec says {}", json!(delivered), exp["delivered"]));
-        }
-        let eo = exp["out"].as_array().cloned().unwrap_or_default();
-        let same_out = eo.len() == frames_out.len() && eo.iter().zip(frames_out.iter()).all(|(e, o)| same_frame(e, o));
-        if !same_out {
-            mismatch.push(format!("server wrote {} but the spec says {}", json!(frames_out), json!(eo)));
-        }
-        if exp["closed"] != json!(closed) {
-            mismatch.push(format!("reported closed = {} but the spec says {}", closed, exp["closed"]));
-        }
-        if exp["failed"] != json!(failed) {
-            mismatch.push(format!("receive error = {} but the spec says {}", failed, exp["failed"]));
-        }
-        if panicked {
-            mismatch.push("a receive call panicked".into());
-        }
-        if end != "eof" {
-            mismatch.push(format!("the server's stream ended with {}", end));
-        }
+        mismatch.extend(best.unwrap_or_default());
+    }
+    if hung {
+        HANGS.fetch_add(1, SeqCst);
     }
     // a receive call was entered while only the first bytes of a frame were visible in the socket
     let partial = ev.iter().any(|e| e["e"] == "call" && (1..6).contains(&e["avail"].as_u64().unwrap_or(0)));
@@ -813,13 +827,45 @@ fn run_case(case: &Case, srv: &Server, rng: &mut Rng) -> Value {
     line
 }
 
+#[allow(clippy::too_many_arguments)]
+fn compare(exp: &Value, status: u64, accept: &str, want: &str, delivered: &[Value], frames_out: &[Value], closed: bool,
+           failed: bool, panicked: bool, end: &str, mm: &mut Vec<String>) {
+        let exp_up = exp["status"].as_u64() == Some(101);
+        if exp_up != (status == 101) {
+            mm.push(format!("handshake status {} but the spec says {}", status, if exp_up { "101" } else { "not upgraded" }));
+        }
+        if exp_up && accept != want {
+            mm.push(format!("Sec-WebSocket-Accept {:?}, wanted {:?}", accept, want));
+        }
+        if json!(delivered) != exp["delivered"] {
+            mm.push(format!("delivered {} but the spec says {}", json!(delivered), exp["delivered"]));
+        }
+        let eo = exp["out"].as_array().cloned().unwrap_or_default();
+        let same_out = eo.len() == frames_out.len() && eo.iter().zip(frames_out.iter()).all(|(e, o)| same_frame(e, o));
+        if !same_out {
+            mm.push(format!("server wrote {} but the spec says {}", json!(frames_out), json!(eo)));
+        }
+        if exp["closed"] != json!(closed) {
+            mm.push(format!("reported closed = {} but the spec says {}", closed, exp["closed"]));
+        }
+        if exp["failed"] != json!(failed) {
+            mm.push(format!("receive error = {} but the spec says {}", failed, exp["failed"]));
+        }
+        if panicked {
+            mm.push("a receive call panicked".into());
+        }
+        if end != "eof" {
+            mm.push(format!("the server's stream ended with {}", end));
+        }
+}
+
 /// the script of a connection in the input format of `replay` (keys are concrete strings here)
 fn case_json(c: &Case) -> Value {
     json!({"c": c.idx, "key": c.key.clone().unwrap_or_else(|| "<nokey>".into()),
            "mode": if c.nb { "nonblocking" } else { "blocking" }, "echo": c.echo,
            "frames": c.frames.iter().map(|f| json!({"op": f.op, "fin": f.fin, "pay": rle_json(&expand(&f.pay)), "cuts": f.cuts})).collect::<Vec<_>>(),
            "sent": c.sent, "end": match c.end { End::Close => "close", End::Shut => "shut", End::Stay => "stay" }, "gap": c.gap_us,
-           "pre": c.pre, "push": rle_json(&expand(&c.push))})
+           "pre": c.pre, "push": rle_json(&expand(&c.push)), "hsv": c.hsv, "late": c.late_ms})
 }
 
 /// equality of a predicted and an observed server frame; the payload of a (well-formed) Close reply is
@@ -858,6 +904,9 @@ fn parse_case(idx: usize, v: &Value) -> Case {
         full: true,
         pre: v["pre"].as_str().unwrap_or("none").to_string(),
         push: rle_from_json(&v["push"]),
+        hsv: v["hsv"].as_str().unwrap_or("canon").to_string(),
+        late_ms: v["late"].as_u64().unwrap_or(0),
+        exp_alt: v["exp_alt"].as_array().cloned().unwrap_or_default(),
     }
 }
 
@@ -874,6 +923,11 @@ fn run_all(cases: Vec<Case>, conc: usize) {
                 Some(c) => c,
                 None => break,
             };
+            if HANGS.load(SeqCst) >= 6 {
+                // a tree on which connections hang: report the hangs found so far instead of waiting 20 s for each
+                out_line(&json!({"c": c.idx, "skipped": true}));
+                continue;
+            }
             let mut rng = Rng::new(seed ^ ((c.idx as u64 + 1) * 0x9E37_79B9) ^ t as u64);
             let line = run_case(&c, &srv, &mut rng);
             out_line(&line);
@@ -948,9 +1002,11 @@ fn rand_key(rng: &mut Rng) -> Option<String> {
         }
         s
     };
-    match rng.below(16) {
+    match rng.below(20) {
         0 => None,
         1 => Some(String::new()),
+        16 | 17 | 18 => key_of_name(&format!("kLen{}", rng.range(0, 130))),
+        19 => key_of_name(*rng.pick(&["kUni", "kUniEdge"])),
         2 => Some(printable(rng, 1)),
         3 | 4 | 5 | 6 => Some(b64(&rng.bytes(16))),
         7 => Some(printable(rng, 200)),
@@ -1042,7 +1098,9 @@ fn rand_case(idx: usize, rng: &mut Rng, maxframes: usize, maxpay: usize) -> Case
         _ => ("none".to_string(), vec![]),
     };
     Case { idx, key: rand_key(rng), nb, echo: rng.chance(1, 2), frames, sent, end, exp: None,
-           gap_us: *rng.pick(&[0u64, 0, 200, 700, 1500]), full: true, pre, push }
+           gap_us: *rng.pick(&[0u64, 0, 200, 700, 1500]), full: true, pre, push,
+           hsv: if rng.chance(1, 10) { rng.pick(&["lower", "upper", "mixed", "tokenUpper", "tokenMixed", "connLower"]).to_string() } else { "canon".to_string() },
+           late_ms: 0, exp_alt: vec![] }
 }
 
 fn main() {
